@@ -452,8 +452,8 @@ class Assembler:
         info = self.meta['callees'].pop(key0, None)
         props = []
         for (no, ln) in block:
-            if ln.strip().startswith('//@ props'):
-                props = ln.split()[2:]
+            if ln.strip().startswith('//@ props') or ln.strip().startswith('//@ consumers'):
+                props = props + ln.split()[2:]
         tags = set(props)
         for (no, ln) in block:
             t = parse_tags(ln)
@@ -590,6 +590,10 @@ class Assembler:
                 hide_utf8 = True  # opt-in (hiding a function that the pruned query does not mention crashes this Verus)
             elif cmd == 'props':
                 props.extend(sarg.split())
+            elif cmd == 'consumers':
+                # properties whose end-to-end statement consumes what this function computes: they are undecided when the function cannot be
+                # verified (degraded); unlike `props` they are NOT blamed for a failed safety obligation inside it
+                fninfo['consumers'] = sarg.split()
             elif cmd == 'params':
                 # the names the contract uses for the parameters, by position. If the repository renamed a parameter, the identifier is
                 # alpha-renamed inside this function's text (a declared, semantics-preserving rewrite) so the contract still binds.
